@@ -173,6 +173,60 @@ func (c *Ctx) detectTypeRenames() []string {
 			}
 		}
 	}
+	// fields renamed AND reordered: same multiset of field types; fields that
+	// kept their name stay, the others are paired type by type in order
+	for k, kt := range knownTypes {
+		tn := objs[k]
+		if tn == nil {
+			tn = typeFwd[k]
+		}
+		if tn == nil || len(kt.Fields) == 0 || len(kt.FieldTypes) != len(kt.Fields) {
+			continue
+		}
+		st, ok := tn.Type().Underlying().(*types.Struct)
+		if !ok || st.NumFields() != len(kt.Fields) || kt.Erased == shapeOf(tn.Type().(*types.Named), true) {
+			continue
+		}
+		erase := func(t string) string { return modTypeRE.ReplaceAllString(t, "•") }
+		refByName := map[string]int{}
+		for i, n := range kt.Fields {
+			refByName[n] = i
+		}
+		usedRef := map[int]bool{}
+		var open []int // current fields whose name is not a reference name
+		for i := 0; i < st.NumFields(); i++ {
+			if j, same := refByName[st.Field(i).Name()]; same && erase(types.TypeString(st.Field(i).Type(), nil)) == kt.FieldTypes[j] {
+				usedRef[j] = true
+			} else {
+				open = append(open, i)
+			}
+		}
+		pairs := map[int]int{}
+		okAll := true
+		for _, i := range open {
+			ft := erase(types.TypeString(st.Field(i).Type(), nil))
+			found := -1
+			for j := range kt.Fields {
+				if !usedRef[j] && kt.FieldTypes[j] == ft {
+					found = j
+					break
+				}
+			}
+			if found < 0 {
+				okAll = false
+				break
+			}
+			usedRef[found] = true
+			pairs[i] = found
+		}
+		if !okAll {
+			continue
+		}
+		for i, j := range pairs {
+			fieldBack[st.Field(i)] = kt.Fields[j]
+			log = append(log, fmt.Sprintf("field %s.%s takes the place of %s of the reference tree (same type, fields reordered: a rename)", k, st.Field(i).Name(), kt.Fields[j]))
+		}
+	}
 	return log
 }
 
@@ -188,10 +242,11 @@ func refSig(sig string) string {
 }
 
 type knownType struct {
-	Order  int
-	Shape  string
-	Erased string
-	Fields []string
+	Order      int
+	Shape      string
+	Erased     string
+	Fields     []string
+	FieldTypes []string // with module type names erased
 }
 
 func init() {
@@ -199,13 +254,14 @@ func init() {
 		names, objs := c.typeTable()
 		for _, k := range names {
 			n := objs[k].Type().(*types.Named)
-			var fields []string
+			var fields, ftypes []string
 			if st, ok := n.Underlying().(*types.Struct); ok {
 				for i := 0; i < st.NumFields(); i++ {
 					fields = append(fields, st.Field(i).Name())
+					ftypes = append(ftypes, modTypeRE.ReplaceAllString(types.TypeString(st.Field(i).Type(), nil), "•"))
 				}
 			}
-			fmt.Printf("%s\t%q\t%q\t%s\n", k, shapeOf(n, false), shapeOf(n, true), strings.Join(fields, ","))
+			fmt.Printf("%s\t%q\t%q\t%s\t%s\n", k, shapeOf(n, false), shapeOf(n, true), strings.Join(fields, ","), strings.Join(ftypes, "\x1f"))
 		}
 	}
 }
